@@ -758,18 +758,15 @@ def run_cases(ctx, cases):
 
 
 def run(ctx):
-    corpus = load_corpus()
-    if corpus:
-        run_cases(ctx, corpus)
+    cases = load_corpus()          # corpus first
     nf, nm = ctx.n(28, 400), ctx.n(12, 150)
-    cases = []
     for _ in range(nf):
         c = gen_case(ctx.rng)
         c["laws"] = True
         cases.append(c)
     for _ in range(nm):
         cases.append(gen_mcase(ctx.rng))
-    chunk = 60
+    chunk = 200                    # few driver starts: each one elaborates the driver (seconds)
     for i in range(0, len(cases), chunk):
         run_cases(ctx, cases[i:i + chunk])
 
